@@ -238,3 +238,31 @@ def difference(engine, it, ks, other):
     def body(kv):
         return z3.And(nsel(ks.present, kv), z3.Not(nsel(other.present, kv)))
     return KeySetVal(ks.shape, _lambda_over_keys(ks, body), ks.arrays)
+
+
+def instantiate_enumeration_at(engine, it, ks, keys):
+    """A clause asks about the key `keys` of a set that has been enumerated: hand the solver the instance of the
+    enumeration axiom for exactly that key (present -> its position idx(keys) is in range and E[idx] is the record
+    stored under the key).  An instance of a fact already assumed - it only spares the solver the search for it."""
+    sq = ks.enum
+    if sq is None or getattr(sq, "idx_fn", None) is None or it.ctx.in_quantifier:
+        return
+    done = it.ctx.__dict__.setdefault("_enum_instances", set())
+    sig = (id(sq), tuple(k.get_id() if hasattr(k, "get_id") else k for k in keys))
+    if sig in done:
+        return
+    done.add(sig)
+    j = sq.idx_fn(*keys)
+    try:
+        def thunk():
+            e = sq.get(j)
+            ek = key_of(it, ks.shape, e)
+            stored = elem_at(engine, it, ks, keys)
+            same = it.truth(it.engine.fieldwise_equal(it, e, stored))
+            same = zbool(same) if not isinstance(same, bool) else z3.BoolVal(same)
+            return z3.And(0 <= j, j < sq.length, *[a == b for a, b in zip(ek, keys)], same)
+        pres = nsel(ks.present, keys)
+        body = it.try_nofork(pres, thunk)
+        it.ctx.assume(z3.Implies(pres, body))
+    except Infeasible:
+        pass
